@@ -14,7 +14,9 @@ import (
 // subscription roots. Used where the property quantifies over requests, not over schemas.
 func kitchenModel() *model.Schema {
 	t := model.T
-	arg := func(n, ty string, def *model.Val) *model.ArgDef { return &model.ArgDef{Name: n, Type: t(ty), Default: def} }
+	arg := func(n, ty string, def *model.Val) *model.ArgDef {
+		return &model.ArgDef{Name: n, Type: t(ty), Default: def}
+	}
 	f := func(n, ty string, args ...*model.ArgDef) *model.FieldDef {
 		return &model.FieldDef{Name: n, Type: t(ty), Args: args}
 	}
